@@ -82,7 +82,7 @@ func ruleWalkSkipsOnlyInverted(c *Ctx, rule string) {
 	var cb []ssa.Instruction
 	allInstrs(fn, func(in ssa.Instruction) {
 		if call, ok := in.(*ssa.Call); ok {
-			if p, isP := unspill(call.Call.Value).(*ssa.Parameter); isP && p.Name() == "f" {
+			if p, isP := unspill(call.Call.Value).(*ssa.Parameter); isP && p.Parent() == fn {
 				cb = append(cb, in)
 			}
 		}
@@ -429,7 +429,7 @@ func rulePerRangePickersDistinct(c *Ctx, rule string) {
 			continue
 		}
 		for _, w := range callsAllX(fn, fipPkg+".walkIPRanges") {
-			mc, ok := w.Common().Args[1].(*ssa.MakeClosure)
+			mc, ok := stripConv(w.Common().Args[1]).(*ssa.MakeClosure)
 			if !ok {
 				continue
 			}
@@ -553,7 +553,7 @@ func ruleRangeDecodeAssigns(c *Ctx, rule string) {
 				}
 				break
 			}
-			if unspill(root) == ssa.Value(fn.Params[0]) || root == ssa.Value(fn.Params[0]) {
+			if unspill(root) == ssa.Value(pAt(fn, 0)) || root == ssa.Value(pAt(fn, 0)) {
 				stores = append(stores, st)
 			}
 		}
@@ -586,7 +586,7 @@ func ruleTableBuildersEnumerate(c *Ctx, rule string) {
 	}
 	n := 0
 	for _, w := range calls(fn, fipPkg+".walkIPRanges") {
-		mc, ok := w.Common().Args[1].(*ssa.MakeClosure)
+		mc, ok := stripConv(w.Common().Args[1]).(*ssa.MakeClosure)
 		if !ok {
 			c.undecided(rule, fn, "walkIPRanges callback", w, "callback is not a closure literal")
 			continue
